@@ -188,7 +188,10 @@ class MonitoringGTV
             double d = dist3(real_.pos(), target);
             if (!(d <= next_dist_ * (1 + 1e-9) + 1e-300))
                 this->fail("move_internal-beyond-found-distance");
-            else if (next_boundary_ && !(d < next_dist_))
+            // (the propagator decides "intercept beyond the substep end" on its own chord
+            // length; this distance is recomputed here, so a tie within a few ulp of the
+            // found distance cannot be told apart and is not judged)
+            else if (next_boundary_ && !(d < next_dist_ * (1 + 8 * 2.220446049250313e-16)))
                 this->fail("move_internal-onto-found-boundary");
         }
         real_.move_internal(target);
